@@ -11,6 +11,9 @@ RecOk(r) ==
   /\ \A i \in 1..Len(r.cfgs) : r.cfgs[i] = r.cfgs[1]                    \* every node is told the same
   /\ \A i \in 1..Len(r.blks) :
         LET b == r.blks[i] IN BlockOk(r.img, r.cfgs[1][3], b[1], b[2], b[3], <<b[4], b[5], b[6], b[7]>>)
+  \* two firmware ids loaded: a late request that names the earlier one is answered, if at all, with THAT firmware
+  /\ r.hasprev => \A i \in 1..Len(r.pblks) :
+        LET b == r.pblks[i] IN BlockOk(r.pimg, r.pblocks, b[1], b[2], b[3], <<b[4], b[5], b[6], b[7]>>)
 Bad == {i \in 1..Len(Recs) : ~RecOk(Recs[i])}
 ASSUME PrintT(<<"BADREC", Bad>>)
 ASSUME PrintT(<<"COUNT", Len(Recs)>>)
